@@ -1638,6 +1638,33 @@ Proof.
   - exact (Hend Hat).
 Qed.
 
+Definition exf_p1 : sp :=
+  match set_stream (cfinal 10 exf_sp0 exf_ops1) (Some RT_Data) with SetOk p => p | _ => exf_sp0 end.
+
+Example exf_set : set_stream (cfinal 10 exf_sp0 exf_ops1) (Some RT_Data) = SetOk exf_p1.
+Proof. vm_compute. reflexivity. Qed.
+
+Example exf_legal2 : csched_legal 10 exf_p1 exf_ops2.
+Proof.
+  vm_compute. repeat split; try discriminate; try (repeat constructor);
+    try (intros H; exfalso; apply H; reflexivity).
+Qed.
+
+Example exf_C18 :
+  cdelivered 10 exf_p1 exf_ops2 ++ stream_buffer (cfinal 10 exf_p1 exf_ops2) = [120; 121; 122].
+Proof.
+  destruct exf_parser_ok as (Hok & Hst & E0).
+  assert (Hw : held exf_rp ++ cfed exf_ops1 ++ cfed exf_ops2 ++ [] = enc_rcds exf_rs ++ [])
+    by (vm_compute; reflexivity).
+  destruct (C18_only_active_rcds 10 exf_rp exf_r exf_sp0 RT_Data exf_rs [] exf_ops1 exf_ops2 [] Hok Hst E0
+              exf_later exf_rcds_ok Hw exf_legal1) as (p1 & Eset & H).
+  rewrite exf_set in Eset.
+  pose proof (f_equal (fun r => match r with SetOk p => p | _ => exf_sp0 end) Eset) as Hp.
+  cbv beta iota in Hp. subst p1.
+  destruct (H exf_legal2) as (_ & _ & _ & _ & Hall).
+  rewrite Hall; [vm_compute; reflexivity|]. right. vm_compute. reflexivity.
+Qed.
+
 Print Assumptions sparse_call.
 Print Assumptions concrete_schedule_law.
 Print Assumptions concrete_schedule.
